@@ -1,4 +1,5 @@
 """C18 - the registry reflects exactly the live registrations and cannot be knocked over."""
+import os
 import socket
 
 from hypothesis import strategies as st
@@ -13,7 +14,8 @@ RULE = ("case = history (<= 40 steps) of register(host, port, aliases) / unregis
         "case) / advance the clock, from several hosts and ports with several aliases, interleaved with malformed requests: "
         "arbitrary bytes, every serializable shape in place of (magic, command, args), wrong or non-text magic, unknown text "
         "command, NON-TEXT command, wrong argument count, non-iterable args, alias lists with non-text members, exotic ports, "
-        "oversized datagrams, and for TCP clients that connect and stay silent, send half a request or close at once. The real "
+        "oversized datagrams, for TCP clients that connect and stay silent, send half a request or close at once, and replies "
+        "whose transmission fails with an OS error (message too long, network unreachable, ...). The real "
         "UDPRegistryServer / TCPRegistryServer objects run their real _work/_recv/_send/cmd_* code over a scripted socket with "
         "a virtual clock, one pass per step. oracle: reference map NAME -> {(host, port): last refresh}: a query returns "
         "exactly the members refreshed within the pruning interval, oldest first; added/removed hooks fire exactly once per "
@@ -66,7 +68,16 @@ class FakeUDP(object):
             self.srv.active = False
         return data[:n], addr
 
+    fail_next = None          # an OSError the next transmission of a reply raises (network trouble on the way back)
+
+    def _maybe_fail(self):
+        ex, self.fail_next = self.fail_next, None
+        if ex is not None:
+            self.failed_sends = getattr(self, "failed_sends", 0) + 1
+            raise ex
+
     def sendto(self, data, addr):
+        self._maybe_fail()
         self.sent.append((addr, data))
 
     def close(self):
@@ -99,6 +110,7 @@ class FakeConn(object):
         return d
 
     def send(self, data):
+        self.l._maybe_fail()
         self.l.sent.append((self.addr, data))
         return len(data)
 
@@ -239,6 +251,12 @@ def run_history(case):
             if op == "tick":
                 clock.now += stp[1]
                 continue
+            if op == "sendfail":
+                # the reply to the NEXT request cannot be transmitted (message too long, network unreachable, ...)
+                sock.fail_next = OSError(stp[1], os.strerror(stp[1]))
+                stats["sendfail"] = stats.get("sendfail", 0) + 1
+                continue
+            reply_lost = sock.fail_next is not None
             if op == "reg":
                 host, port, names = HOSTS[stp[1] % 3], PORTS[stp[2] % 3], [ALIASES[a % 4] for a in stp[3]] or ["foo"]
                 died = deliver(refcodec.dump(("RPYC", "REGISTER", (tuple(names), port))), addr_of(host))
@@ -297,6 +315,9 @@ def run_history(case):
                                                   op if op != "bad" else "malformed request (%s)" % stp[1]), died))
                 break
             r = reply_of()
+            if reply_lost and sock.fail_next is None:
+                want = None               # the request was carried out; only its reply could not be sent
+            sock.fail_next = None
             if want == "OK":
                 if r != "OK":
                     problems.append(("reply", "%s not acknowledged" % op, repr(r)[:80]))
@@ -359,6 +380,8 @@ def check(case, rec):
     nontrivial = (stats["prunes"] > 0 or "unreg" in kinds) and kinds.count("query") >= 2 and stats["bad"] >= 1
     if stats["prunes"]:
         classes.append("pruned")
+    if stats.get("sendfail"):
+        classes.append("reply-transmission-fails")
     rec.case(case, nontrivial, classes)
     return [Failure(cl, key, case, det) for cl, key, det in problems[:3]]
 
@@ -379,7 +402,8 @@ def cases():
     unreg = st.tuples(st.just("unreg"), st.integers(0, 2), st.integers(0, 2)).map(list)
     query = st.tuples(st.just("query"), st.integers(0, 3), st.integers(0, 3), st.integers(0, 2)).map(list)
     tick = st.tuples(st.just("tick"), st.sampled_from([1.0, 30.0, 50.0, 99.0, 100.0, 101.0, 250.0])).map(list)
-    step = st.one_of(reg, reg, unreg, query, query, tick, bad)
+    sendfail = st.tuples(st.just("sendfail"), st.sampled_from([90, 101, 113, 1, 111])).map(list)     # EMSGSIZE, ENETUNREACH, ...
+    step = st.one_of(reg, reg, unreg, query, query, tick, bad, sendfail)
     # constructive: two servers under one name, the older one refreshed later, a malformed request, queries around a
     # prune / unregister - the shapes that matter should not be left to luck
     def refresh(t):
